@@ -554,6 +554,63 @@ def dtype_stream(rep: Report, rng: Rng):
                                    "expected": float(exp), "got": got})
                     return
 
+
+# ------------------------------------------------------------------ scale stream (the counts of a large evaluation set)
+
+SCALE_FNS = [("binary_auroc", {}), ("binary_auprc", {}), ("binary_precision_recall_curve", {}),
+             ("binary_recall_at_fixed_precision", {"min_precision": 0.5}),
+             ("multiclass_auroc", {"num_classes": 3, "average": None}), ("multiclass_auprc", {"num_classes": 3, "average": None}),
+             ("multiclass_precision_recall_curve", {"num_classes": 3}),
+             ("multilabel_auprc", {"num_labels": 3, "average": None}), ("multilabel_precision_recall_curve", {"num_labels": 3})]
+
+
+def scale_small(fn: str, seed: int):
+    """the small data set of a scale case, a function of (fn, seed) only"""
+    rng = Rng(seed)
+    n0 = 40
+    g = G5 + [Fr(1, 8), Fr(3, 8)]
+    if fn.startswith("binary"):
+        x = torch.tensor([float(rng.choice(g)) for _ in range(n0)], dtype=torch.float32)
+        t = torch.tensor([rng.choice([0, 1]) for _ in range(n0)], dtype=torch.int64)
+    elif fn.startswith("multiclass"):
+        x = torch.tensor([[float(rng.choice(g)) for _ in range(3)] for _ in range(n0)], dtype=torch.float32)
+        t = torch.tensor([rng.choice([0, 1, 2]) for _ in range(n0)], dtype=torch.int64)
+    else:
+        x = torch.tensor([[float(rng.choice(g)) for _ in range(3)] for _ in range(n0)], dtype=torch.float32)
+        t = torch.tensor([[rng.choice([0, 1]) for _ in range(3)] for _ in range(n0)], dtype=torch.int64)
+    return x, t
+
+
+def scale_verdict(fn: str, params: dict, seed: int, log2r: int):
+    """every sample of the small set replicated 2^log2r times (sample dimension): ranks, counts, precision, recall and the
+    areas are ratios of counts, so the DEFINITION of the large set is that of the small one (duplication invariance,
+    TE.Props.C17) — which the oracle computes exactly.  Returns (agrees, expected, real)."""
+    x, t = scale_small(fn, seed)
+    r = 1 << log2r
+    kw_small = {"input": x, "target": t, **params}
+    kw_big = {"input": x.repeat_interleave(r, dim=0), "target": t.repeat_interleave(r, dim=0), **params}
+    real = real_call(fn, kw_big)
+    agrees, exp = definition_verdict(fn, kw_small, real)
+    return agrees, exp, real
+
+
+def scale_stream(rep: Report, rng: Rng):
+    """evaluation sets of 163 840 samples (40 distinct samples x 2^12): per-class products of counts pass 2^31, counts pass
+    2^16 — any counting done in a narrower type than the code's int64 / float64 shows as a wrong value."""
+    reps = 1 if rep.tier == "quick" else 4
+    for _ in range(reps):
+        for fn, params in SCALE_FNS:
+            seed = rng.randrange(1 << 30)
+            agrees, exp, real = scale_verdict(fn, params, seed, 12)
+            rep.case(nontrivial_key=("scale", fn, seed))
+            rep.count("scale-stream:163840-samples")
+            if agrees is False:
+                rj = real[1] if real[0] == "err" else [tt.reshape(-1)[:12].tolist() for tt in real[1]]
+                rep.violation(f"C05|{fn}|163840-samples|differs-from-definition",
+                              f"{fn} on 40 distinct samples each replicated 4096 times returns {rj} where the definition gives {[float(v) for v in exp][:12]}",
+                              {"kind": "scale", "fn": fn, "params": params, "seed": seed, "log2r": 12})
+                return
+
 def run(rep: Report):
     rng = Rng(rep.seed * 1000003 + 5)
     from .. import opscheck; opscheck.check_ops(rep, ["curve"])
@@ -561,6 +618,7 @@ def run(rep: Report):
     check_cases(rep, all_cases(rng, rep.tier), "functional", deadline)
     class_programs(rep, Rng(rep.seed * 1000003 + 55))
     dtype_stream(rep, Rng(rep.seed * 1000003 + 555))
+    scale_stream(rep, Rng(rep.seed * 1000003 + 5555))
 
 
 def search(rep: Report):
@@ -605,6 +663,16 @@ def replay(payload) -> bool:
         print(f"replay: {r['fn']} on {x.numel()} {r['input']['dtype']} scores: " + (f"raised {real[1]} (a refused dtype is not a wrong value)" if real[0] != "ok"
               else f"returns {got}, the definition gives {float(exp)}"))
         return bool(holds)
+    if kind == "scale":
+        if r.get("fn") not in [f for f, _ in SCALE_FNS] or not isinstance(r.get("seed"), int) or not isinstance(r.get("log2r"), int):
+            _nothing("scale payload without function name, seed and replication exponent")
+        agrees, exp, real = scale_verdict(r["fn"], dict(r.get("params") or {}), r["seed"], r["log2r"])
+        if agrees is None:
+            _nothing("the definition oracle does not cover this input")
+        if agrees is False:
+            print(f"replay: {r['fn']} on the replicated set returns {real[1] if real[0] == 'err' else [tt.reshape(-1)[:8].tolist() for tt in real[1]]}, "
+                  f"the definition gives {[float(v) for v in exp][:8]}"[:600])
+        return agrees is True
     if kind == "functional":
         c = r.get("case")
         if not isinstance(c, dict) or "fn" not in c or not isinstance(c.get("kwargs"), dict) or not all(is_tdesc(c["kwargs"].get(k)) for k in ("input", "target")):
